@@ -731,6 +731,32 @@ func c08GotoForms() []string {
 	return out
 }
 
+// c08ValidGotoForms: texts that are VALID (goto as in Lua 5.2: a label at the end of its block may be jumped to over
+// local declarations — the early-exit / continue idiom) in every kind of block, including function bodies and the
+// chunk itself; each must load.
+func c08ValidGotoForms() []string {
+	inners := []string{
+		"goto done; local v = 1; ::done::", "if x then goto done end local v = 1; print(v) ::done::", "do goto done end local v ::done::",
+		"goto done; local a, b, c; local function h() return a end ::done::", "do goto fin; local v; ::fin:: end",
+		"if x then goto e elseif y then goto e end local v = 2 ::e::", "while x do goto e end local v ::e::",
+		"for j = 1, 2 do if j == 1 then goto e end end local v = 3 ::e::", "::top:: if x then goto bottom end local v ::bottom::",
+		"for j = 1, 3 do if j == 2 then goto continue end local y = j; print(y) ::continue:: end",
+		"while x do x = not x; if y then goto continue end local z = 1 ::continue:: end",
+		"goto l1; ::l0:: local v; ::l1::", "do do goto out end end local v ::out::",
+	}
+	outers := []string{"%s", "local a; %s", "local a, b2, c2; %s", "for i = 1, 3 do %s end", "for k, v2 in pairs({}) do %s end", "function f(p, q) %s end",
+		"function f(...) %s end", "local function f(p) local q; do local r; %s end end", "do local a; do local a2; do local a3; %s end end end",
+		"local t = {f = function(self, x2) %s end}", "return function() local a; return function() local a1, a2; %s end end",
+		"if x then %s end", "if x then elseif y then %s else %s end", "local m = {} function m:go(n) %s end", "while x do %s end"}
+	var out []string
+	for _, in := range inners {
+		for _, o := range outers {
+			out = append(out, strings.ReplaceAll(o, "%s", in))
+		}
+	}
+	return out
+}
+
 func init() { props["C08"] = runC08 }
 
 func runC08(run *Run) {
@@ -740,7 +766,7 @@ func runC08(run *Run) {
 		nBytes, nSoup, nMut, nProg, nTrunc, nNum, nFile = 150000, 150000, 120000, 6000, 300, 40000, 3000
 		deepSizes = []int{10, 199, 250, 2000, 10000}
 	}
-	run.Rule = "inputs: random bytes, token soup (valid and malformed lexemes incl. every blank/line-end/comment form), generated valid programs in 13 layouts each (canonical, minimal-separator, CRLF, CR, LFCR, random blanks+comments+semicolons, redundant parentheses, alternative literal spellings, all combined, and the two-byte-line-end layouts shifted so that a CR LF / LF CR pair straddles the scanner's 4096-byte read-ahead buffer), byte-level mutations and truncations of those, every prefix of selected programs, 6720 statement forms (expression form × statement wrapper × block context), 338 goto/label forms (placement × surrounding blocks and locals), numerals, nesting up to depth 10^4 (thorough; 2000 quick), LoadFile with '#' first lines, the repository's .lua files. Each input: real LoadString under recover+timeout (panic/timeout = violation), real token stream vs the Lean scanner model (exact incl. line/column/PNewLine/error), vs the Lua 5.1 lexical grammar (Spec); layouts of one program: instruction-identical protos modulo line tables and identical emit traces (Impl vs Impl). distinct = distinct op-kind skeletons of cases with >= 3 ops"
+	run.Rule = "inputs: random bytes, token soup (valid and malformed lexemes incl. every blank/line-end/comment form), generated valid programs in 13 layouts each (canonical, minimal-separator, CRLF, CR, LFCR, random blanks+comments+semicolons, redundant parentheses, alternative literal spellings, all combined, and the two-byte-line-end layouts shifted so that a CR LF / LF CR pair straddles the scanner's 4096-byte read-ahead buffer), byte-level mutations and truncations of those, every prefix of selected programs, 6720 statement forms (expression form × statement wrapper × block context), 338 goto/label forms (placement × surrounding blocks and locals) + 195 valid goto idioms (label at the end of every kind of block: must load), numerals, nesting up to depth 10^4 (thorough; 2000 quick), LoadFile with '#' first lines, the repository's .lua files. Each input: real LoadString under recover+timeout (panic/timeout = violation), real token stream vs the Lean scanner model (exact incl. line/column/PNewLine/error), vs the Lua 5.1 lexical grammar (Spec); layouts of one program: instruction-identical protos modulo line tables and identical emit traces (Impl vs Impl). distinct = distinct op-kind skeletons of cases with >= 3 ops"
 	run.Assume = []string{
 		"bufio.Reader: ReadByte/UnreadByte deliver the bytes of the input in order (modelled as a list of bytes)",
 		"the goyacc table driver and the compiler are not modelled: their outcome is observed on the real code only (panic/timeout detection, layout invariance Impl vs Impl)",
@@ -771,6 +797,9 @@ func runC08(run *Run) {
 	}
 	for _, s := range c08GotoForms() {
 		add([]Op{{Args: []string{"b", hexOrDash([]byte(s))}}}, "gotoform")
+	}
+	for _, s := range c08ValidGotoForms() {
+		add([]Op{{Args: []string{"valid"}}, {Args: []string{"b", hexOrDash([]byte(s))}}}, "gotovalid")
 	}
 	idx = len(c08Corpus)
 	idx = 1000
